@@ -20,13 +20,15 @@ func init() {
 		Decides: "three structural clauses of \"the toolchain never crashes\": " +
 			"(E7) every recursion of the Go toolchain packages (lang/token, lang/parse, lang/ast, lang/check, lang/render, lang/generate, lang/builtin, internal/cgen, lib/dumbindent, lib/interval, cmd/wuffsfmt, cmd/wuffs-c; VTA call graph over a CHA seed, higher-order helpers resolved per call site) is either cut by a verified depth guard (a counter compared with a constant <= 65536 — a.MaxExprDepth / a.MaxTypeExprDepth / a.MaxBodyDepth — whose exceeded branch returns an ordinary error, which dominates every recursive call, and whose counter is incremented before every recursive call, never reset, and threaded unchanged through same-kind calls), or is listed in a frozen table as a walk over an already built AST (bounded by the parser's guards), a declaration-graph walk, or a walk over embedded templates; in lang/parse every cycle of the call graph must pass through a verified guard and every loop that re-wraps a loop-carried AST node must be guarded, so that both the parser's stack and the depth of the AST it returns are bounded; a new recursive function is reported; " +
 			"(P) the explicit panic(...) sites, and the os.Exit / log.Fatal* / log.Panic* / runtime.Goexit calls, that are reachable in the call graph from token.Tokenize, parse.Parse, parse.ParseExpr, check.Check, render.Render, generate.Do, cgen.Do and dumbindent.FormatBytes are exactly the frozen ones, each with its stated pre-condition, and the callers establish the pre-conditions that are structural (makeSliceLengthEqEq's argument is an arbitrary-precision decimal; andBothNonNeg / orBothNonNeg / andOneNegOneNonNeg receive split2Ways components only under their has-flag; bitMask receives BitLen() results); " +
-			"(L) lang/token compares against maxLine, maxTokenSize and maxID before the corresponding growth (line++, the token text handed to Map.Insert, the insertion of a new ID)",
-		NotDecided: "implicit panics (nil dereference, index out of range, failed type assertion, integer division by zero, out-of-memory) on malformed input — including the `iterate (x)(…)` nil dereference the property text mentions; termination of loops (infinite loops, e.g. in lib/dumbindent or fixed-point iterations in cgen's liveness); the value-level pre-conditions of the frozen panic sites in lib/interval (operand bit lengths <= 0xFFFF / 1<<30, livenesses of equal length); stack consumption per recursion level (a guard bounds the depth, not the bytes; the declaration-graph walk ast.tssVisit is bounded only by maxID = 2^20 distinct names); recursion that passes through standard-library callbacks; that the C emitted for accepted programs is accepted by the C compiler (clause 3 of DESIGN §4 C11 is implemented separately)",
+			"(L) lang/token compares against maxLine, maxTokenSize and maxID before the corresponding growth (line++, the token text handed to Map.Insert, the insertion of a new ID); " +
+			"(CC) for a systematic construct corpus (corpus/ccompile + wv/c11_cc_gen.go: every operator of cgen's cOpNames x numeric type x operand position, conversions between all pairs, type shapes to depth 3 x declaration position, method kinds, statement forms, one call of every built-in of lang/builtin's tables that has a C lowering) the working tree's compiler accepts each program and gcc, clang and g++ accept the C it emits (-fsyntax-only; nothing is executed), and the corpus, measured on its type-checked syntax trees, reaches every case of the cgen tables it targets",
+		NotDecided: "implicit panics (nil dereference, index out of range, failed type assertion, integer division by zero, out-of-memory) on malformed input — including the `iterate (x)(…)` nil dereference the property text mentions; termination of loops (infinite loops, e.g. in lib/dumbindent or fixed-point iterations in cgen's liveness); the value-level pre-conditions of the frozen panic sites in lib/interval (operand bit lengths <= 0xFFFF / 1<<30, livenesses of equal length); stack consumption per recursion level (a guard bounds the depth, not the bytes; the declaration-graph walk ast.tssVisit is bounded only by maxID = 2^20 distinct names); recursion that passes through standard-library callbacks; that the C emitted for accepted programs OUTSIDE the construct corpus is accepted by the C compiler (the corpus is systematic, not exhaustive: combinations of constructs, and the accepted-but-rejected-in-C programs of corpus/ccompile-known, which are reported as INFO)",
 		Assumptions: []string{
 			"go/types, go/cfg, go/ssa and go/callgraph/{cha,vta} (x/tools v0.29.0) are sound for this code: no reflection or unsafe is used to call functions",
 			"error-return idioms enumerated in core.IsErrorReturn",
 			"the frozen tables (derived walkers, declaration-graph walks, panic pre-conditions) were each confirmed by reading the function; they are listed with their reason in every run's INFO lines",
 			"a Go stack of 1 GB accommodates 65536 nested frames of any function of the toolchain",
+			"(CC) gcc 12, clang 14 and g++ 12 with -fsyntax-only report the constraint violations a full compilation would; the corpus programs are the ones the unchanged tree accepts (a rejected corpus program is undecided, never skipped)",
 		},
 	}, runC11)
 }
@@ -122,6 +124,7 @@ func runC11(c *core.Ctx) {
 	t0 = time.Now()
 	c11Control(c)
 	c11T("control", t0)
+	c11CC(c, k) // last clause of C11: the emitted C is accepted by the C compiler (c11_cc.go)
 }
 
 func c11T(what string, t0 time.Time) {
